@@ -155,7 +155,7 @@ func judgeSession(prompt string, seq []*ReplRec, r *CLIRun) (string, string) {
 
 func checkC20(c *Ctx) {
 	out := filepath.Join(c.Work, "repl.ndjson")
-	res := c.runTLC(TLCJob{Module: "FamRepl", Cfg: "FamRepl.cfg", OutFile: out, Timeout: 20 * time.Minute})
+	res := c.runTLC(TLCJob{Module: "FamRepl", Cfg: map[bool]string{false: "FamRepl.cfg", true: "FamRepl_thorough.cfg"}[c.Tier == "thorough"], OutFile: out, Timeout: 20 * time.Minute})
 	if res.Err != "" {
 		return
 	}
